@@ -50,7 +50,7 @@ func init() {
 	reg("strings.Contains", func(m *M, fn *ssa.Function, a []Value, r ssa.Value) Value {
 		return bContains(sv(a[0]), sv(a[1]))
 	})
-	reg("strings.Index|internal/stringslite.Index", func(m *M, fn *ssa.Function, a []Value, r ssa.Value) Value {
+	reg("strings.Index|internal/stringslite.Index|internal/bytealg.IndexString", func(m *M, fn *ssa.Function, a []Value, r ssa.Value) Value {
 		return bIndex(sv(a[0]), sv(a[1]))
 	})
 	reg("strings.Cut|internal/stringslite.Cut", func(m *M, fn *ssa.Function, a []Value, r ssa.Value) Value {
@@ -67,7 +67,7 @@ func init() {
 	reg("strings.LastIndex", func(m *M, fn *ssa.Function, a []Value, r ssa.Value) Value {
 		return bLastIndex(sv(a[0]), sv(a[1]))
 	})
-	reg("strings.LastIndexByte", func(m *M, fn *ssa.Function, a []Value, r ssa.Value) Value {
+	reg("strings.LastIndexByte|internal/bytealg.LastIndexByteString", func(m *M, fn *ssa.Function, a []Value, r ssa.Value) Value {
 		return bLastIndex(sv(a[0]), strB([]*smt.Term{tv(a[1])}))
 	})
 	reg("strings.Count", func(m *M, fn *ssa.Function, a []Value, r ssa.Value) Value {
@@ -122,7 +122,7 @@ func init() {
 		m.st.setObj(p.Obj, strC(""))
 		return nil
 	})
-	reg("strings.IndexByte|internal/stringslite.IndexByte", func(m *M, fn *ssa.Function, a []Value, r ssa.Value) Value {
+	reg("strings.IndexByte|internal/stringslite.IndexByte|internal/bytealg.IndexByteString", func(m *M, fn *ssa.Function, a []Value, r ssa.Value) Value {
 		return bIndex(sv(a[0]), strB([]*smt.Term{tv(a[1])}))
 	})
 	reg("strings.TrimSuffix|internal/stringslite.TrimSuffix", func(m *M, fn *ssa.Function, a []Value, r ssa.Value) Value {
